@@ -66,6 +66,9 @@ def gen(seed, tier="quick"):
             c["hook_dur"] = [r.choice([0, 1000, 250_000, 1_000_000]) for _ in range(r.randint(1, 3))]
     if r.random() < 0.12:
         scn["warnings_as_errors"] = True     # the process runs with -W error
+    if scn["mode"] == "sync" and len(scn["calls"]) > 1 and r.random() < 0.5:
+        for c in scn["calls"][1:]:
+            c["on_thread"] = True             # later calls on the same policy object come from another OS thread
     return scn
 
 
